@@ -57,6 +57,48 @@ def kwarg(call, name, pos=None):
     return None
 
 
+LAZY_FUNCS = {"map", "filter", "zip", "reversed", "range", "iter", "enumerate", "set", "frozenset"}
+CONSUMERS = {"list", "sorted", "tuple", "set", "frozenset", "any", "all", "sum", "min", "max", "len", "dict", "enumerate",
+             "zip", "map", "filter", "next", "bool", "str", "isinstance"}
+CONSUMER_METHODS = {"join", "update", "extend", "union", "intersection", "difference", "issubset", "issuperset"}
+
+
+def lazy_escapes(fn):
+    """Values that json.dumps rejects (iterators, sets, dict views) and that are not consumed on
+    the spot: (function name, source) pairs."""
+    parents = {}
+    for node in ast.walk(fn):
+        for ch in ast.iter_child_nodes(node):
+            parents[ch] = node
+    out = []
+    for node in ast.walk(fn):
+        lazy = False
+        if isinstance(node, (ast.GeneratorExp, ast.Set, ast.SetComp)):
+            lazy = True
+        elif isinstance(node, ast.Call):
+            if isinstance(node.func, ast.Name) and node.func.id in LAZY_FUNCS:
+                lazy = True
+            elif isinstance(node.func, ast.Attribute) and node.func.attr in ("keys", "values", "items") and not node.args:
+                lazy = True
+        if not lazy:
+            continue
+        p = parents.get(node)
+        ok = False
+        if isinstance(p, (ast.For, ast.comprehension)) and p.iter is node:
+            ok = True
+        elif isinstance(p, ast.Call) and node in p.args:
+            if isinstance(p.func, ast.Name) and p.func.id in CONSUMERS:
+                ok = True
+            elif isinstance(p.func, ast.Attribute) and p.func.attr in CONSUMER_METHODS:
+                ok = True
+        elif isinstance(p, (ast.Compare, ast.BoolOp, ast.UnaryOp, ast.If, ast.While, ast.Starred, ast.IfExp)) and not (
+                isinstance(p, ast.IfExp) and p.test is not node):
+            ok = True
+        if not ok:
+            out.append((fn.name, src(p if isinstance(p, (ast.Assign, ast.AnnAssign, ast.Return)) else node).replace("\n", " ")[:100]))
+    return out
+
+
 def translate(path=None):
     path = path or os.path.join(REPO, "fortls", "langserver.py")
     with open(path) as f:
@@ -103,6 +145,10 @@ def translate(path=None):
                     out["unknown"].append("self.conn used as a value in %s" % name)
     out["writers"] = writers
     out["running"] = running
+    lazy = []
+    for name, fn in funcs.items():
+        lazy += lazy_escapes(fn)
+    out["lazy"] = lazy
 
     # ---- handle
     h = funcs.get("handle")
@@ -278,6 +324,7 @@ def render(t) -> str:
     L.append("  p_resp_writers := [%s];" % "; ".join(q(x) for x in resp_writers))
     L.append("  p_running := [%s];" % "; ".join("(%s, %s)" % (q(fn), v) for fn, v in t.get("running", [])))
     L.append("  p_handle_callers := [%s];" % "; ".join(q(x) for x in t.get("handle_callers", [])))
+    L.append("  p_lazy := [%s];" % ";\n    ".join("(%s, %s)" % (q(a), q(b)) for a, b in t.get("lazy", [])))
     L.append("  p_unknown := [%s]" % "; ".join(q(x) for x in t.get("unknown", [])))
     L.append("|}.")
     return "\n".join(L) + "\n"
